@@ -5,7 +5,7 @@ files yield well-formed, total and unambiguous lists is a finite fact about data
 import z3
 from pyvc.vtypes import FA
 from pyvc.contracts_api import REG, C, RaiseSpec, LoopSpec
-from pyvc.dsl import And, Or, Not, Implies, If, Eq, IsNone, AllIdx, AnyIdx
+from pyvc.dsl import And, Or, Not, Implies, If, Eq, IsNone, AllIdx, AnyIdx, With
 from pyvc.vtypes import Real, Int, Bool, Id, Ref, Opt, Seq, Tup, Map, IdSort, RefSort
 from pyvc import vtypes as ty
 from pyvc.timelib import CAL
@@ -13,7 +13,7 @@ from pyvc.timelib import CAL
 T = "acnportal.signals.tariffs.tou_tariff.TimeOfUseTariff."
 
 REG.schema("TariffSchedule", start=Tup(Int, Int), end=Tup(Int, Int), dow_mask=Seq(Bool), tariffs=Seq(Tup(Real, Real)), demand_charge=Real)
-REG.schema("TimeOfUseTariff", _schedule=Seq(Ref("TariffSchedule")))
+REG.schema("TimeOfUseTariff", _schedule=Seq(Ref("TariffSchedule")), name=Id, effective=Id)
 
 
 def lex_le(a, b):
@@ -203,3 +203,153 @@ def _offsets_add():
 
 
 REG.lemma("C17.period_offsets_add", _offsets_add, props=("C17",))
+
+
+# ---------------------------------------------------------------------------- the constructor: seasons that wrap the new year are split (C17)
+TS = "acnportal.signals.tariffs.tou_tariff.TariffSchedule."
+REG.schema("ScheduleDoc")
+PARSED = {f: z3.Function("parsed_" + f, RefSort, srt) for f, srt in
+          (("start_m", z3.IntSort()), ("start_d", z3.IntSort()), ("end_m", z3.IntSort()), ("end_d", z3.IntSort()),
+           ("mask", z3.ArraySort(z3.IntSort(), z3.BoolSort())))}
+
+REG.contract(
+    TS + "__init__", params=dict(self=Ref("TariffSchedule"), doc=Ref("ScheduleDoc")),
+    assumed="parsing of one schedule document (str.split / int / Decimal / list sort: outside the verifier's reach, monitored exhaustively on the five bundled "
+            "files): the fields are functions of the document; the mask has 7 entries, the breakpoint list is non-empty and starts at hour 0",
+    raises=[RaiseSpec("ValueError", lambda s: True, iff=False, unchanged=False)],
+    modifies=[("TariffSchedule." + f, lambda s: [s.self]) for f in ("start", "end", "dow_mask", "tariffs", "demand_charge")],
+    ensures=[C("parsed", lambda old, new, ret: And(new.self.start[0] == PARSED["start_m"](old.doc.ref), new.self.start[1] == PARSED["start_d"](old.doc.ref),
+                                                   new.self.end[0] == PARSED["end_m"](old.doc.ref), new.self.end[1] == PARSED["end_d"](old.doc.ref),
+                                                   new.self.dow_mask.len == 7, new.self.dow_mask.v.arrs[0] == PARSED["mask"](old.doc.ref),
+                                                   new.self.tariffs.len >= 1, ty.sel(new.self.tariffs.v.arrs[0], 0) == 0))])
+
+
+def _tariff_file(ex, st):
+    from pyvc.state import PyDict
+    docs = ty.named(Seq(Ref("ScheduleDoc")), "file.schedule")
+    ex.assume_wf(st, Seq(Ref("ScheduleDoc")), docs)
+    st.ghost["file_docs"] = docs
+    return PyDict({"name": z3.Const("file.name", IdSort), "effective": z3.Const("file.effective", IdSort), "schedule": docs})
+
+
+def _doc_season(docs, i):
+    d = ty.sel(docs.v.arrs[0], i)
+    return (PARSED["start_m"](d), PARSED["start_d"](d)), (PARSED["end_m"](d), PARSED["end_d"](d)), PARSED["mask"](d)
+
+
+def _eq2(a, b):
+    return z3.And(a[0] == b[0], a[1] == b[1])
+
+
+def _wraps(st_, en_):
+    return z3.Not(lex_le(st_, en_))
+
+
+JAN1 = (z3.IntVal(1), z3.IntVal(1))
+DEC31 = (z3.IntVal(12), z3.IntVal(31))
+
+
+def _is_piece_of(sc, st_, en_, mask):
+    """the schedule is one of the pieces document (st_, en_, mask) is split into: the season itself if it does not wrap the new year, otherwise its
+    first half start..Dec 31 or its second half Jan 1..end; same weekday mask"""
+    w = _wraps(st_, en_)
+    return z3.And(sc.dow_mask.v.arrs[0] == mask, sc.dow_mask.len == 7,
+                  z3.If(w, z3.Or(z3.And(_eq2(sc.start, st_), _eq2(sc.end, DEC31)), z3.And(_eq2(sc.start, JAN1), _eq2(sc.end, en_))),
+                        z3.And(_eq2(sc.start, st_), _eq2(sc.end, en_))))
+
+
+def _ctor_inv(s):
+    docs = s.file_docs
+    tar = s.self
+    S, T_, src, pos = tar._schedule, s.to_add, s.add_src, s.add_pos
+    j, a, b = z3.Int("j!tci"), z3.Int("a!tci"), z3.Int("b!tci")
+    sc = lambda jj: sched(s, tar, jj)
+    ta = lambda aa: s.obj(ty.sel(T_.v.arrs[0], aa), "TariffSchedule")
+    sa = lambda aa: ty.sel(src.v.arrs[0], aa)
+    pa = lambda jj: ty.sel(pos.v.arrs[0], jj)
+    out = [
+        ("one_schedule_per_document", And(S.len == docs.len, T_.len == src.len, pos.len == s._k, T_.len >= 0)),
+        ("schedules_are_live_distinct_objects", And(
+            FA([j], z3.Implies(z3.And(j >= 0, j < S.len), z3.And(sc(j).ref != 0, s.alloc_ref(sc(j).ref))), patterns=[ty.sel(S.v.arrs[0], j)]),
+            FA([j, b], z3.Implies(z3.And(j >= 0, j < b, b < S.len), sc(j).ref != sc(b).ref), patterns=[z3.MultiPattern(ty.sel(S.v.arrs[0], j), ty.sel(S.v.arrs[0], b))]))),
+        ("visited_wrapping_schedules_end_on_dec_31_the_others_are_as_parsed",
+         FA([j], z3.Implies(z3.And(j >= 0, j < S.len), z3.And(
+             _eq2(sc(j).start, _doc_season(docs, j)[0]), sc(j).dow_mask.v.arrs[0] == _doc_season(docs, j)[2], sc(j).dow_mask.len == 7,
+             _eq2(sc(j).end, (z3.If(z3.And(j < s._k, _wraps(*_doc_season(docs, j)[:2])), DEC31[0], _doc_season(docs, j)[1][0]),
+                              z3.If(z3.And(j < s._k, _wraps(*_doc_season(docs, j)[:2])), DEC31[1], _doc_season(docs, j)[1][1]))))),
+            patterns=[ty.sel(S.v.arrs[0], j)])),
+        ("every_added_copy_is_the_second_half_of_a_visited_wrapping_schedule",
+         FA([a], z3.Implies(z3.And(a >= 0, a < T_.len), z3.And(
+             sa(a) >= 0, sa(a) < s._k, _wraps(*_doc_season(docs, sa(a))[:2]), pa(sa(a)) == a, ta(a).ref != 0, s.alloc_ref(ta(a).ref),
+             _eq2(ta(a).start, JAN1), _eq2(ta(a).end, _doc_season(docs, sa(a))[1]), ta(a).dow_mask.v.arrs[0] == _doc_season(docs, sa(a))[2], ta(a).dow_mask.len == 7)),
+            patterns=[ty.sel(T_.v.arrs[0], a)])),
+        ("copies_are_new_objects", FA([a, j], z3.Implies(z3.And(a >= 0, a < T_.len, j >= 0, j < S.len), ta(a).ref != sc(j).ref),
+                                      patterns=[z3.MultiPattern(ty.sel(T_.v.arrs[0], a), ty.sel(S.v.arrs[0], j))])),
+        ("every_visited_wrapping_schedule_has_its_copy",
+         FA([j], z3.Implies(z3.And(j >= 0, j < s._k, _wraps(*_doc_season(docs, j)[:2])), z3.And(pa(j) >= 0, pa(j) < T_.len, sa(pa(j)) == j)), patterns=[pa(j)])),
+    ]
+    return out
+
+
+def _appended(cond, seq_view, x):
+    v = seq_view.v
+    return ty.SeqV(v.elem, [z3.If(cond, z3.Store(v.arrs[0], v.len, ty.to_z3num(x)), v.arrs[0])], z3.If(cond, v.len + 1, v.len))
+
+
+def _ctor_post(old, new, ret):
+    """C17: after construction every schedule is a piece of some document's season (whole if it does not wrap the new year, otherwise one of its halves)
+    and every piece of every document is there - so a date lies in a document's (possibly wrapping) season iff it lies in the plain range of one of
+    its pieces (lemma C17.a_wrapping_season_is_the_union_of_its_halves)"""
+    docs = new.file_docs
+    tar = new.self
+    R = tar._schedule
+    k, i, k2 = z3.Int("k!tcp"), z3.Int("i!tcp"), z3.Int("k2!tcp")
+    sc = lambda kk: sched(new, tar, kk)
+    piece = lambda kk, ii: _is_piece_of(sc(kk), *_doc_season(docs, ii))
+    st_i, en_i, mk_i = _doc_season(docs, i)
+    has = lambda a_, b_: z3.Exists([k2], z3.And(k2 >= 0, k2 < R.len, _eq2(sc(k2).start, a_), _eq2(sc(k2).end, b_), sc(k2).dow_mask.v.arrs[0] == mk_i))
+    # witnesses (proof hints): where the final rearrangement put document i's own schedule and, for a wrapping season, its copy (ghost add_pos)
+    from pyvc.seqlib import SORTQ
+    Ra = R.v.arrs[0]
+    k_own = SORTQ(Ra, i)
+    k_copy = SORTQ(Ra, docs.len + ty.sel(new.add_pos.v.arrs[0], i))
+    at = lambda kk, a_, b_: z3.And(kk >= 0, kk < R.len, _eq2(sc(kk).start, a_), _eq2(sc(kk).end, b_), sc(kk).dow_mask.v.arrs[0] == mk_i)
+    located = FA([i], z3.Implies(z3.And(i >= 0, i < docs.len), z3.If(_wraps(st_i, en_i), z3.And(at(k_own, st_i, DEC31), at(k_copy, JAN1, en_i)), at(k_own, st_i, en_i))),
+                 patterns=[ty.sel(docs.v.arrs[0], i)])
+    return [
+        ("C17.every_schedule_is_a_piece_of_some_documents_season", FA([k], z3.Implies(z3.And(k >= 0, k < R.len), z3.Exists([i], z3.And(i >= 0, i < docs.len, piece(k, i)))),
+                                                                      patterns=[ty.sel(R.v.arrs[0], k)])),
+        ("C17.every_piece_of_every_documents_season_is_a_schedule",
+         With(FA([i], z3.Implies(z3.And(i >= 0, i < docs.len), z3.If(_wraps(st_i, en_i), z3.And(has(st_i, DEC31), has(JAN1, en_i)), has(st_i, en_i))),
+                 patterns=[ty.sel(docs.v.arrs[0], i)]), [located])),
+    ]
+
+
+REG.contract(
+    T + "__init__", params=dict(self=Ref("TimeOfUseTariff"), filename=Id, tariff_dir=Id),
+    raises=[RaiseSpec("ValueError", lambda s: True, iff=False, unchanged=False)],
+    modifies=[("TimeOfUseTariff._schedule", lambda s: [s.self]), ("TimeOfUseTariff.name", lambda s: [s.self]), ("TimeOfUseTariff.effective", lambda s: [s.self]), "alloc"]
+             + [("TariffSchedule." + f, "FRESH") for f in ("start", "end", "dow_mask", "tariffs", "demand_charge")],
+    ensures=[C("C17.wrapping_seasons_are_split", _ctor_post, props=("C17",))],
+    loops={0: LoopSpec(invariant=_ctor_inv, locals=dict(to_add=Seq(Ref("TariffSchedule"))),
+                       modifies=["alloc"] + [("TariffSchedule." + f, "NEW") for f in ("start", "end", "dow_mask", "tariffs", "demand_charge")],
+                       ghost=lambda s: dict(add_src=[], add_pos=[]), ghost_vars=dict(add_src=Seq(Int), add_pos=Seq(Int)),
+                       ghost_step=lambda head, end: dict(
+                           add_src=_appended(end.to_add.len > head.to_add.len, head.add_src, head._k),
+                           add_pos=_appended(z3.BoolVal(True), head.add_pos, z3.If(end.to_add.len > head.to_add.len, head.to_add.len, -1))))},
+    extra=dict(json_load=_tariff_file),
+)
+
+
+def _halves_lemma():
+    """for valid calendar dates: a date lies in a season that wraps the new year (start..Dec 31, Jan 1..end) iff it lies in one of the two plain halves"""
+    sm, sd, em, ed, m, d = z3.Ints("wl_sm wl_sd wl_em wl_ed wl_m wl_d")
+    st_, en_, md = (sm, sd), (em, ed), (m, d)
+    valid = z3.And(m >= 1, m <= 12, d >= 1, d <= 31)
+    plain = lambda a_, b_: z3.And(lex_le(a_, md), lex_le(md, b_))
+    return [("a_wrapping_season_is_the_union_of_its_halves", [valid, _wraps(st_, en_)],
+             z3.Or(lex_le(st_, md), lex_le(md, en_)) == z3.Or(plain(st_, DEC31), plain(JAN1, en_))),
+            ("the_halves_do_not_overlap", [valid, _wraps(st_, en_)], z3.Not(z3.And(plain(st_, DEC31), plain(JAN1, en_))))]
+
+
+REG.lemma("C17.a_wrapping_season_is_the_union_of_its_halves", _halves_lemma, props=("C17",))
